@@ -69,6 +69,11 @@ REPAIR = ("repair-composite-ready",
           "\txrCond.LastTransitionTime = conditionTime()\n")
 
 
+# once the repair is in /repo: the mutant that takes it out again must bring the finding back
+FIXED_ANCHOR = "\tswitch d.GetComposite().GetReady() {\n"
+UNREPAIR = ("composite-readiness-ignored", FIXED_ANCHOR, "\tswitch fnv1.Ready_READY_UNSPECIFIED {\n", ["Parity.XRReadyExplicit"])
+
+
 def build_mutant(ctx, name, old, new):
     src = open(RENDER).read()
     if src.count(old) != 1:
@@ -116,7 +121,15 @@ def main():
         hit = all(f in raised for f in expect)
         ok &= hit
         print("mutant %-34s %s  new/raised: %s" % (name, "DETECTED" if hit else "MISSED (expected %s)" % expect, raised), flush=True)
-    if not only or REPAIR[0] in only:
+    if FIXED_ANCHOR in open(RENDER).read():
+        # the tree already honours the composite's explicit readiness (finding repaired in /repo, 8962cf6): take it out again
+        if not only or UNREPAIR[0] in only:
+            got, _ = judge(ctx, build_mutant(ctx, *UNREPAIR[:3]), scs, UNREPAIR[0])
+            raised = {f: n for f, n in got.items() if n > base.get(f, 0)}
+            hit = all(f in raised for f in UNREPAIR[3])
+            ok &= hit
+            print("mutant %-34s %s  new/raised: %s" % (UNREPAIR[0], "DETECTED" if hit else "MISSED (expected %s)" % UNREPAIR[3], raised), flush=True)
+    elif not only or REPAIR[0] in only:
         got, _ = judge(ctx, build_mutant(ctx, *REPAIR), scs, REPAIR[0])
         good = not got and base.get("Parity.XRReadyExplicit", 0) > 0
         ok &= good
